@@ -612,6 +612,18 @@ Proof.
   eapply isolation_untouched; eauto.
 Qed.
 
+(* ---- behaviour: whatever a connection answers as a function of its own tables (classify is one such
+   function) is not changed by an operation on another connection, nor by any number of them ------------------ *)
+Theorem isolation_answers_ok : forall (Q R : Type) (f : conn_view -> Q -> R) s ops o j q, init_ok s = true ->
+  j < length (st_conns (run s ops)) -> target o <> Some j ->
+  answer f (fst (step (run s ops) o)) j q = answer f (run s ops) j q.
+Proof. intros. unfold answer. rewrite (isolation_conns_ok s ops o j); auto. Qed.
+
+Theorem isolation_answers_untouched_ok : forall (Q R : Type) (f : conn_view -> Q -> R) s ops1 ops2 j q, init_ok s = true ->
+  j < length (st_conns (run s ops1)) -> Forall (fun o => target o <> Some j) ops2 ->
+  answer f (run (run s ops1) ops2) j q = answer f (run s ops1) j q.
+Proof. intros. unfold answer. rewrite (isolation_untouched_ok s ops1 ops2 j); auto. Qed.
+
 (* ---- the premises are satisfiable: a definition with two levels, two connections, a session ------------------------------------ *)
 Local Open Scope N_scope.
 Definition ex_defs : list tables :=
@@ -628,3 +640,16 @@ Example ex_history :
   view_conn s 1%nat = view_conn s 2%nat /\ view_conn s 0%nat <> view_conn s 1%nat /\
   Some (nth 0%nat (view_defs s) (None, None)) = view_conn s 1%nat.
 Proof. vm_compute. repeat split; congruence. Qed.
+
+(* two connections of one platform register differently named sessions with one pattern text: the same
+   prompt is classified by each connection as ITS session, before and after the other one's registration
+   (the matcher of the example is "the pattern occurs in the prompt") *)
+Example ex_answers :
+  let reg i n := Register i n (mkPF [40;115;41] n [112] [] [] false []) in
+  let s1 := run (init_state ex_defs) [New 0%nat; New 0%nat; reg 0%nat [97]] in
+  let s2 := fst (step s1 (reg 1%nat [98])) in
+  answer (classify infixb) s1 0%nat [120;40;115;41;35] = Some (Some [[97]]) /\
+  answer (classify infixb) s2 0%nat [120;40;115;41;35] = Some (Some [[97]]) /\
+  answer (classify infixb) s2 1%nat [120;40;115;41;35] = Some (Some [[98]]) /\
+  answer (classify infixb) s1 1%nat [120;40;115;41;35] = Some None.
+Proof. vm_compute. repeat split; reflexivity. Qed.
